@@ -141,6 +141,7 @@ package cp
 
 import (
 	baz "example.com/c/bar"
+	. "example.com/c/dot"
 	"github.com/google/wire"
 )
 
@@ -185,6 +186,14 @@ func score3(table3 int) int {
 	table2 := 3
 	table := 4
 	return table*100 + table2*10 + table3
+}
+
+// identifiers of a dot-imported package: bare, as the base of a field selector, as a method expression, as a
+// composite literal type and as a conversion
+func dotted() string {
+	g := Greeter{Name: Default.Name}
+	f := Greeter.Greet
+	return f(g) + "/" + Itoa(Port(80)) + "/" + Default.Greet()
 }
 
 func labels(xs []int) int {
@@ -233,6 +242,20 @@ func variadic(xs ...int) (n int, err error) {
 
 func (p Pair) Method() string { return p.B }
 '''
+DOT_SRC = '''package dot
+
+import "strconv"
+
+type Greeter struct{ Name string }
+
+func (g Greeter) Greet() string { return "hi " + g.Name }
+
+type Port int
+
+var Default = Greeter{Name: "svc"}
+
+func Itoa(p Port) string { return strconv.Itoa(int(p)) }
+'''
 COPY_OTHER = '''package cp
 
 type num = int
@@ -255,6 +278,9 @@ func Check() string {
 	}
 	if score2() != 1020 || score3(5) != 435 {
 		return "score2/score3 differ"
+	}
+	if dotted() != "hi svc/80/hi svc" {
+		return "dotted differs: " + dotted()
 	}
 	d := []int{1, 2, 3, 99}
 	h := head(d, 2)
@@ -289,6 +315,8 @@ def eng_copydecls(pid, tier, wd, known, replay=None):
     open(os.path.join(root, "go.mod"), "w").write("module example.com/c\n\ngo 1.21\n\nrequire github.com/google/wire v0.1.0\n\nreplace github.com/google/wire => %s\n" % REPO)
     shutil.copy(os.path.join(REPO, "go.sum"), os.path.join(root, "go.sum"))
     open(os.path.join(root, "bar/bar.go"), "w").write("package bar\n\nfunc Base() int { return 10 }\n")
+    os.makedirs(os.path.join(root, "dot"), exist_ok=True)
+    open(os.path.join(root, "dot/dot.go"), "w").write(DOT_SRC)
     open(os.path.join(root, "cp/wire.go"), "w").write(COPY_SRC)
     open(os.path.join(root, "cp/other.go"), "w").write(COPY_OTHER)
     open(os.path.join(root, "main/main.go"), "w").write('package main\n\nimport "example.com/c/cp"\n\nfunc main() { println(cp.Check()) }\n')
